@@ -1,0 +1,44 @@
+//go:build verif
+
+// Machine-checked contracts for package backtest (read by /verif/govc; comment-only).
+// Report protocol events (ghost log of a Report object): 1 Begin, 2 AssetBegin, 3 Write, 4 AssetEnd, 5 End.
+
+package backtest
+
+//@ func interface Report.Begin
+//@ modifies self
+//@ ensures[C13] nev(self) == old(nev(self)) + 1 && evkind(self, old(nev(self))) == 1
+//@ func interface Report.AssetBegin
+//@ modifies self
+//@ ensures[C13] result == nil ==> nev(self) == old(nev(self)) + 1 && evkind(self, old(nev(self))) == 2 && evname(self, old(nev(self))) == p0
+//@ ensures[C13] result != nil ==> nev(self) == old(nev(self))
+//@ func interface Report.Write
+//@ requires consumed(p2) == 0 && consumed(p3) == 0 && consumed(p4) == 0
+//@ modifies self
+//@ ensures[C13] nev(self) == old(nev(self)) + 1 && evkind(self, old(nev(self))) == 3 && evname(self, old(nev(self))) == p0 && evstrat(self, old(nev(self))) == p1
+//@ ensures[C13] evsnap(self, old(nev(self))) == p2 && evact(self, old(nev(self))) == p3 && evout(self, old(nev(self))) == p4
+//@ ensures[C03] consumed(p2) == len(p2) && consumed(p3) == len(p3) && consumed(p4) == len(p4)
+//@ func interface Report.AssetEnd
+//@ modifies self
+//@ ensures[C13] nev(self) == old(nev(self)) + 1 && evkind(self, old(nev(self))) == 4 && evname(self, old(nev(self))) == p0
+//@ func interface Report.End
+//@ modifies self
+//@ ensures[C13] nev(self) == old(nev(self)) + 1 && evkind(self, old(nev(self))) == 5
+
+// one worker: for every asset whose snapshots can be read and whose AssetBegin succeeds, the report receives
+// AssetBegin(name), then exactly one Write(name, strategy j, ...) per strategy in order, then AssetEnd(name)
+//@ func Backtest.worker
+//@ requires consumed(names) == 0 && len(b.Strategies) >= 1
+//@ ensures[C13] "only-asset-events" forall i :: old(nev(b.report)) <= i && i < nev(b.report) ==> 2 <= evkind(b.report, i) && evkind(b.report, i) <= 4
+//@ ensures[C13] "asset-begin-is-closed-by-asset-end" forall i :: old(nev(b.report)) <= i && i < nev(b.report) && evkind(b.report, i) == 2 ==> i + len(b.Strategies) + 1 < nev(b.report) && evkind(b.report, i + len(b.Strategies) + 1) == 4 && evname(b.report, i + len(b.Strategies) + 1) == evname(b.report, i)
+//@ ensures[C13] "one-write-per-strategy-in-order" forall i, m :: old(nev(b.report)) <= i && i < nev(b.report) && evkind(b.report, i) == 2 && i < m && m <= i + len(b.Strategies) ==> evkind(b.report, m) == 3 && evname(b.report, m) == evname(b.report, i) && evstrat(b.report, m) == b.Strategies[m - i - 1]
+//@ ensures[C03] consumed(names) == len(names)
+//@ loop#0 invariant old(nev(b.report)) <= nev(b.report)
+//@ loop#0 invariant forall i :: old(nev(b.report)) <= i && i < nev(b.report) ==> 2 <= evkind(b.report, i) && evkind(b.report, i) <= 4
+//@ loop#0 invariant forall i :: old(nev(b.report)) <= i && i < nev(b.report) && evkind(b.report, i) == 2 ==> i + len(b.Strategies) + 1 < nev(b.report) && evkind(b.report, i + len(b.Strategies) + 1) == 4 && evname(b.report, i + len(b.Strategies) + 1) == evname(b.report, i)
+//@ loop#0 invariant forall i, m :: old(nev(b.report)) <= i && i < nev(b.report) && evkind(b.report, i) == 2 && i < m && m <= i + len(b.Strategies) ==> evkind(b.report, m) == 3 && evname(b.report, m) == evname(b.report, i) && evstrat(b.report, m) == b.Strategies[m - i - 1]
+//@ loop#1 invariant old(nev(b.report)) <= (nev(b.report) - 1 - idx1) && evkind(b.report, (nev(b.report) - 1 - idx1)) == 2 && evname(b.report, (nev(b.report) - 1 - idx1)) == name
+//@ loop#1 invariant forall m :: (nev(b.report) - 1 - idx1) < m && m < nev(b.report) ==> evkind(b.report, m) == 3 && evname(b.report, m) == name && evstrat(b.report, m) == b.Strategies[m - (nev(b.report) - 1 - idx1) - 1]
+//@ loop#1 invariant forall i :: old(nev(b.report)) <= i && i < (nev(b.report) - 1 - idx1) ==> 2 <= evkind(b.report, i) && evkind(b.report, i) <= 4
+//@ loop#1 invariant forall i :: old(nev(b.report)) <= i && i < (nev(b.report) - 1 - idx1) && evkind(b.report, i) == 2 ==> i + len(b.Strategies) + 1 < (nev(b.report) - 1 - idx1) && evkind(b.report, i + len(b.Strategies) + 1) == 4 && evname(b.report, i + len(b.Strategies) + 1) == evname(b.report, i)
+//@ loop#1 invariant forall i, m :: old(nev(b.report)) <= i && i < (nev(b.report) - 1 - idx1) && evkind(b.report, i) == 2 && i < m && m <= i + len(b.Strategies) ==> evkind(b.report, m) == 3 && evname(b.report, m) == evname(b.report, i) && evstrat(b.report, m) == b.Strategies[m - i - 1]
